@@ -324,6 +324,12 @@ func runC14(c *core.Ctx) {
 			}
 			alloc, isA := core.Resolve(send.X).(*ssa.Alloc)
 			if !isA {
+				// built by receive itself before the guarded function runs, and captured by it
+				if o := outer(send.X); o != nil {
+					alloc, isA = core.Resolve(o).(*ssa.Alloc)
+				}
+			}
+			if !isA {
 				return false, "the request sent is not a freshly built CorOp"
 			}
 			corOK, valOK := false, false
